@@ -26,6 +26,7 @@ def main():
         ok, detail = mod.replay(data)
         print(("REPRODUCED " if ok else "NOT-REPRODUCED ") + str(detail)[:1500])
         sys.exit(core.REPRODUCED if ok else core.NOT_REPRODUCED)
+    os.environ.setdefault("VERIF_Z3_TIMEOUT_MS", "3000" if args.tier == "quick" else "30000")
     seed = int(os.environ.get("VERIF_SEED", "0"))
     ctx = core.Ctx(pid, args.tier, seed, level=getattr(mod, "LEVEL", "model_checking"))
     ctx.only = args.only
